@@ -64,7 +64,19 @@ func (c ChainCfg) hasCert() bool {
 func (c ChainCfg) hasInter() bool {
 	for _, s := range c.Steps {
 		for _, k := range s.Keys {
-			if k == "cert-inter" {
+			if strings.HasPrefix(k, "cert-inter") {
+				return true
+			}
+		}
+	}
+	return false
+}
+
+// hasInter2: a functionary certificate issued by a second-level intermediate (root -> policy CA -> issuing CA -> leaf)
+func (c ChainCfg) hasInter2() bool {
+	for _, s := range c.Steps {
+		for _, k := range s.Keys {
+			if k == "cert-inter2" {
 				return true
 			}
 		}
@@ -121,6 +133,9 @@ func (c ChainCfg) features() []string {
 	if c.hasCert() {
 		f = append(f, "cert")
 	}
+	if c.hasInter2() {
+		f = append(f, "intermediate2")
+	}
 	if c.hasInter() {
 		f = append(f, "intermediate")
 	}
@@ -159,7 +174,7 @@ func (c ChainCfg) honestClass() string {
 	k := "verify/honest"
 	for _, f := range c.features() {
 		switch f {
-		case "dsse-links", "dsse-layout", "2signers", "multiline", "cert", "intermediate", "odd-names", "rerun":
+		case "dsse-links", "dsse-layout", "2signers", "multiline", "cert", "intermediate", "intermediate2", "odd-names", "rerun":
 			k += "+" + f
 		}
 	}
@@ -189,7 +204,7 @@ func randomChain(r *lib.Rng) ChainCfg {
 		s.Multiline = r.Chance(1, 2)
 		switch {
 		case r.Chance(1, 5):
-			s.Keys = []string{r.Pick([]string{"cert", "cert-inter"})}
+			s.Keys = []string{r.Pick([]string{"cert", "cert-inter", "cert-inter2", "cert-inter2"})}
 			s.DSSE = false // the certificate route is not available for DSSE (documented reading)
 		case !c.DirMode && r.Chance(1, 6):
 			a := r.Intn(len(poolKeys))
@@ -249,6 +264,15 @@ func featuredChains(r *lib.Rng) []ChainCfg {
 		mk(func(c *ChainCfg) { c.Steps[1].Keys = []string{"cert"} }),
 		mk(func(c *ChainCfg) { c.Steps[1].Keys = []string{"cert-inter"}; c.Steps[1].Method = "record" }),
 		mk(func(c *ChainCfg) { c.Steps[0].Keys = []string{"cert-inter"}; c.InterInLayout = true }),
+		// two intermediates: root -> policy CA -> issuing CA -> functionary, passed as a bundle file
+		mk(func(c *ChainCfg) { c.Steps[1].Keys = []string{"cert-inter2"} }),
+		mk(func(c *ChainCfg) {
+			c.Steps[0].Keys = []string{"cert-inter2"}
+			c.Steps[1].Keys = []string{"cert-inter"}
+			c.Steps[1].Method = "record"
+			c.AbsPaths = true
+		}),
+		mk(func(c *ChainCfg) { c.Steps[1].Keys = []string{"cert-inter2"}; c.InterInLayout = true }),
 		// threshold 2, strip prefix, exclude, links next to the products, line normalisation
 		mk(func(c *ChainCfg) { c.Steps[1].Keys = []string{"rsa2048", "ed1"}; c.Lstrip = true }),
 		mk(func(c *ChainCfg) { c.DirMode = true; c.Lstrip = true; c.Inspection = "grep" }),
@@ -298,7 +322,7 @@ func featuredChains(r *lib.Rng) []ChainCfg {
 // recording mode, strip prefix, metadata directory and key kind
 func systematicChains(r *lib.Rng) []ChainCfg {
 	var out []ChainCfg
-	kinds := []string{"ed1", "ecdsa384", "rsa2048", "cert", "cert-inter"}
+	kinds := []string{"ed1", "ecdsa384", "rsa2048", "cert", "cert-inter", "cert-inter2"}
 	for dsse := 0; dsse < 3; dsse++ { // 0 none, 1 all, 2 links only
 		for _, method := range []string{"run", "record"} {
 			for _, dirMode := range []bool{false, true} {
@@ -377,7 +401,8 @@ type world struct {
 	cases     []lib.Case
 	keys      map[string]*funcKey
 	rootCA    *lib.CA
-	interCA   *lib.CA
+	interCA   *lib.CA // policy CA, issued by the root
+	inter2CA  *lib.CA // issuing CA, issued by the policy CA
 	layout    intoto.Layout
 	linkDir   string // absolute: where run / record wrote the links
 	ncert     int
@@ -519,12 +544,19 @@ func (w *world) certKey(kind string, cn string) *funcKey {
 		writeFile(filepath.Join(w.root, "keys", "root.pem"), w.rootCA.PEM)
 	}
 	issuer := w.rootCA
-	if kind == "cert-inter" {
+	if strings.HasPrefix(kind, "cert-inter") {
 		if w.interCA == nil {
 			w.interCA = lib.NewCA("inter", w.rootCA, lib.CertOpts{CN: "verif intermediate"})
 			writeFile(filepath.Join(w.root, "keys", "inter.pem"), w.interCA.PEM)
 		}
 		issuer = w.interCA
+	}
+	if kind == "cert-inter2" {
+		if w.inter2CA == nil {
+			w.inter2CA = lib.NewCA("inter2", w.interCA, lib.CertOpts{CN: "verif issuing CA"})
+			writeFile(filepath.Join(w.root, "keys", "inter2.pem"), w.inter2CA.PEM)
+		}
+		issuer = w.inter2CA
 	}
 	w.ncert++
 	leaf := issuer.NewLeaf(lib.CertOpts{CN: cn, Orgs: []string{"verif-org"}, DNS: []string{cn}})
@@ -855,6 +887,9 @@ func (w *world) buildLayout(expires time.Time) intoto.Layout {
 	}
 	if w.interCA != nil && cfg.InterInLayout {
 		l.IntermediateCas[w.interCA.Key.KeyID] = w.interCA.Key
+		if w.inter2CA != nil {
+			l.IntermediateCas[w.inter2CA.Key.KeyID] = w.inter2CA.Key
+		}
 	}
 	n := len(cfg.Steps)
 	for idx, s := range cfg.Steps {
